@@ -67,7 +67,7 @@ pub fn spec(id: &str) -> Option<CheckSpec> {
             engine: "sysim",
             level: "exploration",
             owns: &["serializability", "content-integrity", "partial-record", "no-panic"],
-            runs: (4000, 150000),
+            runs: (8000, 150000),
             rule: "a run = 2-3 client processes (flavours drawn) each issuing one operation chosen to collide (same key / same content / reader of the key being written / remover of content being written) on a cold or warm cache; at every step the seeded scheduler (uniform random, PCT-style priorities, or enumerated for small cases) picks which parked client's filesystem system call executes; no faults. Accept iff some permutation of the operations applied to the reference model explains every observed result and the final cache state; I1 and 'every bucket line is a whole record' hold after every step. Non-trivial = >= 1 context switch between clients inside overlapping calls; distinct interleavings counted by hash of the (client, syscall) sequence",
             assumptions: A_SYS,
         },
@@ -1278,8 +1278,8 @@ fn gen_c07(rng: &mut Rng, _r: u64, tier: &str) -> Value {
             7 => json!({"k":"api","op":"read","addr":{"val":0,"algo":"sha256"}}),
             8 => json!({"k":"api","op":"metadata","key":0}),
             9 => json!({"k":"api","op":"remove","key":0}),
-            10 => json!({"k":"api","op":*rng.pick(&["remove_hash","exists"]),"addr":{"val":0,"algo":"sha256"}}),
-            _ => json!({"k":"api","op":"list"}),
+            10 => json!({"k":"api","op":*rng.pick(&["remove_hash","remove_hash","exists"]),"addr":{"val":0,"algo":"sha256"}}),
+            _ => json!({"k":"api","op":*rng.pick(&["list","remove_hash"]),"addr":{"val":0,"algo":"sha256"}}),
         };
         let mut st = st;
         st["mode"] = json!(if st["op"] == "list" { "sync" } else { f.1 });
